@@ -93,4 +93,21 @@ theorem C14_parser_code_skeletons_identical :
     Gen.pyPredict = Gen.cppPredict ∧ Gen.pyStates = Gen.cppStates ∧ Gen.pyMatch = Gen.cppMatch := by
   decide +kernel
 
+/-- **The constants the generated code is compiled against are the grammar's.** Token types (class attributes
+of the Python lexer and parser, enums of the two C++ headers) are the token names numbered from 1 in rule order;
+rule indices (RULE_* attributes, the C++ `Rule*` enum) are the parser rules numbered from 0. A header or class
+left behind from another revision of the grammar - every automaton and .tokens file untouched - fails this. -/
+theorem C14_code_constants_match_grammar :
+    Gen.pyParserTokenConsts = (Gen.tokenNames.zipIdx.map fun p => (p.1, p.2 + 1)) ∧
+    Gen.pyLexerTokenConsts = Gen.pyParserTokenConsts ∧
+    Gen.cppParserTokenConsts = Gen.pyParserTokenConsts ∧
+    Gen.cppLexerTokenConsts = Gen.pyParserTokenConsts ∧
+    Gen.pyParserRuleConsts = Gen.parserRuleNames.zipIdx ∧
+    Gen.cppParserRuleConsts = Gen.pyParserRuleConsts := by
+  decide +kernel
+
+/-- the rule code of the two targets refreshes its look-ahead variable at the same places (ATN state entered
+last before each `_la = LA(1)`): a re-read dropped from one target leaves that target deciding on a stale token -/
+theorem C14_parser_lookahead_reads_identical : Gen.pyLaReads = Gen.cppLaReads := by decide +kernel
+
 end Blackbird
